@@ -33,6 +33,18 @@ claimed = {
    text="Partial. Proved: every model function is total; parser::parse (type parser, attribute readers, rename_all, target-os stack walk with fuel sufficiency, use-tree walk, item parsers, visitor) never returns a panic outcome, in single- and multi-file mode; toposort terminates without index panics. Six former parser panic sites were repaired by fix: commits and are kept as kernel-checked regressions. Tied by an edge-construct stream through parser::parse, through in-process generation for all six back ends and through the real binary (exit status in {0,1}, no `panicked at`, 30 s time-out, unparsable / non-UTF-8 files). Not carried by the model: hang-vs-abort of the ignore/crossbeam thread pool after a worker panic (observed only); back-end panic freedom (4 open known findings: Kotlin/Swift const todo!(), Scala empty package, Go non-ASCII enum name).",
    note=TB + "Runtime behaviour of threads is outside the model; see DESIGN.md section 11.",
    tech="Lean 4 proof (compositional no-panic lemmas over the Outcome monad, fuel sufficiency) + edge-stream correspondence + process-level runs"),
+ "C06": dict(ref="8/C06",
+   text="Theorem C06_arrival_order: for the per-file results of one crate (all of single-file mode) with unique type and const names, every permutation of the arrival order at the collector yields the same reconciled, stably sorted structs/enums/aliases/consts, crate key and file name - everything generate_types reads (collector fold characterised, rename table shown order-insensitive under unique names, stable sort on distinct keys erases arrival order); hash iteration order enters the model only through explicit parameters that are never consulted when import_types is empty. Tied by running the real binary under every arrival order (collector hook) for <=4/5 files, sampled orders beyond, walker thread counts 1-16 and repeated processes, comparing all outputs byte-for-byte with each other and with the text the Lean pipeline + back-end models generate. The former violation (consts never sorted) was repaired by a fix: commit. Partial: the multi-crate statement (per-crate grouping by the BTreeMap) is covered by the correspondence but not yet by a theorem; ambiguous imports (same name from two crates) depend on the hash seed and are flagged, not compared.",
+   note=TB + "A schedule is abstracted to an arrival order plus hash iteration orders; real races inside ignore/crossbeam are realised only through the hook and repeated runs.",
+   tech="Lean 4 proof (List.Perm, stable merge sort on distinct keys) + process-level permutation runs with the collector hook"),
+ "C17": dict(ref="8/C17",
+   text="Theorems on the writer model (finite map path -> (bytes, mtime)): re-running with the same outputs leaves contents and modification times untouched and writes nothing (rerun_unchanged); after a run every file it is responsible for holds exactly this run's bytes whatever the file system held before (run_content), lifted over arbitrary histories (history_content: equal to a run into an empty location); the skip-when-empty hole is exhibited as a kernel-checked example. Tied by histories of 2-4 (quick) / 2-6 (thorough) runs of the real binary over changing workspaces, single- and multi-file, six languages, comparing bytes and ns-mtimes after every run with the model fed by a fresh-directory reference run. The former violation (Codable.swift rewritten every run) was repaired by a fix: commit.",
+   note=TB + "The file system is a finite map with a clock; generated bytes are taken from the reference run of the same binary (that they are a function of the inputs is C06).",
+   tech="Lean 4 proof (invariants over run histories) + process-level history replay"),
+ "C20": dict(ref="8/C20",
+   text="Theorems on the configuration model: for each of the seven settings that exist both as an option and in typeshare.toml the effective value is option, else file, else default (precedence); the file-only settings are passed through unchanged (the model is parametric in them); target_os comes from the command line only; the only failure is Go without a package; -g never overwrites; what -g stores reloads to the same effective settings for every later command line (given TOML round-trips). Tied by the full 2x2 matrix per setting through the real binary (config found by -c and by ancestor search), observed in generated code and in the TOML written by -g, random file-only tables observed in generated code, overwrite refusal and reload equality.",
+   note=TB + "clap option parsing and the toml crate are external and exercised through the binary; kotlin/scala module_name are dead settings (observed only in the emitted TOML).",
+   tech="Lean 4 proof (case analysis on the override function) + exhaustive option/key matrix through the binary"),
 }
 checks = []
 for pid, c in claimed.items():
